@@ -296,6 +296,67 @@ def records(ctx, rng, nid):
             out = {'raised': type(e).__name__ + ':' + str(e)[:60]}
         recs.append({'id': 'same-%d' % next(nid), 'op': 'same', 'site': 'Integration.%s' % ic.FUNCS[P],
                      'in': {'law': 'DefaultMutationRateIsOne', 'c': '1', 'P': P, 'mode': case['mode'] + '/default-theta0', 'frozen': case['frozen']}, 'out': out})
+    # (b8) very large relative sizes after re-expression: every population neutral, migration-free and larger than 250
+    # reference sizes in the rescaled units (c = 20 is the top of the stated interval), so that 1/(4 nu) is the ONLY thing
+    # that sets the step - an absolute floor or cap in the rule would show
+    rv = random.Random(ctx.seed + 3308)
+    for P in (1, 2, 3):
+        case = ic.gen_case(rv, P, kind='normal', n={1: 12, 2: 8, 3: 6}[P], mode=['const', 'linear', 'const'][P - 1])
+        case['t0'] = 0.0
+        case['layout'] = 'C'
+        case['frozen'] = [False] * P
+        case['nomut'] = [False] * P
+        for p_ in case['par']:
+            p_['nu'] = {'c0': rv.uniform(14.0, 20.0), 'c1': 0.0}
+            p_['gamma'] = {'c0': 0.0, 'c1': 0.0}
+            p_['mig'] = [{'c0': 0.0, 'c1': 0.0, 'const': True} for _ in p_['mig']]
+        xx = rand_grid(random.Random(case['grid_seed']), case['n'], case['grid_kind'])
+        phi0 = rand_density(random.Random(case['phi_seed']), [case['n']] * P)
+        dts = [Integration._compute_dt(np.diff(xx), p_['nu']['c0'], [0], 0.0, 0.5) for p_ in case['par']]
+        T = rv.uniform(2.3, 3.7) * min(dts)
+        f = getattr(Integration, ic.FUNCS[P])
+        for c in (20.0, 1.0 / 20.0):
+            try:
+                x = f(phi0.copy(), xx, T * c, **_kwargs(case, scale=c))
+                y = f(phi0.copy(), xx, T, **_kwargs(case))
+                out = {'x': common.rats(x.ravel()), 'y': common.rats(y.ravel())}
+            except Exception as e:
+                out = {'raised': type(e).__name__ + ':' + str(e)[:60]}
+            recs.append({'id': 'same-%d' % next(nid), 'op': 'same', 'site': 'Integration.%s' % ic.FUNCS[P],
+                         'in': {'law': 'ReferenceSizeInvariance', 'c': common.rat(c), 'P': P, 'mode': case['mode'] + '/all-sizes-large', 'frozen': case['frozen']}, 'out': out})
+    # (b9) linearity across the two routes with the nomut flags set: one operand's theta0 a number (constant-parameter
+    # route), the other's a function of time (time-dependent route), nomut1 != nomut2
+    for k, (nm1, nm2) in enumerate(((True, False), (False, True))):
+        case = ic.gen_case(rv, 2, kind='normal', n=8, mode='const')
+        case['t0'] = 0.0
+        case['layout'] = 'C'
+        case['frozen'] = [False, False]
+        case['nomut'] = [nm1, nm2]
+        xx = rand_grid(random.Random(case['grid_seed']), case['n'], case['grid_kind'])
+        phi1 = rand_density(random.Random(case['phi_seed']), [8, 8])
+        phi2 = rand_density(random.Random(case['phi_seed'] + 1), [8, 8])
+        dts = []
+        for kk in range(1, 3):
+            p_ = case['par'][kk - 1]
+            ms = [p_['mig'][j]['c0'] for j in range(2) if j != kk - 1] or [0]
+            dts.append(Integration._compute_dt(np.diff(xx), p_['nu']['c0'], ms, p_['gamma']['c0'], p_['h']['c0']))
+        T = rv.uniform(2.2, 4.5) * min(dts)
+        a, b, th1, th2 = 1.0, 1.0, 1.3, 0.8
+        try:
+            kw1 = _kwargs(dict(case, theta0={'c0': th1, 'c1': 0.0}))                       # constant route
+            kw2 = _kwargs(dict(case, theta0={'c0': th2, 'c1': 0.0}))
+            kw2['theta0'] = (lambda t, v=th2: v)                                           # time-dependent route
+            kw3 = _kwargs(dict(case, theta0={'c0': a * th1 + b * th2, 'c1': 0.0}))
+            if k == 1:
+                kw3['theta0'] = (lambda t, v=a * th1 + b * th2: v)
+            o1 = Integration.two_pops(phi1.copy(), xx, T, **kw1)
+            o2 = Integration.two_pops(phi2.copy(), xx, T, **kw2)
+            o3 = Integration.two_pops(a * phi1 + b * phi2, xx, T, **kw3)
+            out = {'o1': common.rats(o1.ravel()), 'o2': common.rats(o2.ravel()), 'o3': common.rats(o3.ravel())}
+        except Exception as e:
+            out = {'raised': type(e).__name__ + ':' + str(e)[:60]}
+        recs.append({'id': 'linear-%d' % next(nid), 'op': 'linear', 'site': 'Integration.two_pops',
+                     'in': {'a': common.rat(a), 'b': common.rat(b), 'P': 2, 'mode': 'mixed-routes/nomut', 'frozen': case['frozen'], 'nomut': case['nomut']}, 'out': out})
     # (c) whole models built from the public API: equilibrium, size change, split, migration, selection, admixture
     for r in range(8 if ctx.quick else 60):
         recs.append(model_record(rng, nid))
